@@ -314,7 +314,8 @@ func main() {
 		sort.Strings(ms)
 		for _, m := range ms {
 			b := hx.Must(os.ReadFile(m))
-			jobs = append(jobs, job{"c_" + strings.TrimSuffix(filepath.Base(m), ".go"), "corpus", string(b), *seed, nil})
+			// corpus programs always run on the same inputs (independent of the run's seed)
+			jobs = append(jobs, job{"c_" + strings.TrimSuffix(filepath.Base(m), ".go"), "corpus", string(b), 20260923, nil})
 		}
 	}
 	rnd := hx.NewRand(*seed)
